@@ -378,6 +378,14 @@ theorem inv_terminate (s : St) (h : Inv slot s) : Inv slot s.terminate := by
   · intro t c hr; simp at hr
   · intro t c hl; simp at hl
 
+/-- `SendStream::reset` as found in the source: it notifies, hence it is a driver-like step -/
+theorem appSet_eq (s : St) (c : Cond) : s.appSet c = s.drive [c] [] := by
+  simp [St.appSet, Gen.c18ResetNotifiesStopped]
+
+/-- `Drop` of a rejected 0-RTT handle as found in the source: the waker-map slot is left alone -/
+theorem dropRejected_eq (s : St) (c : Cond) : s.dropRejected c = s := by
+  simp [St.dropRejected, Gen.c18RejectedDropKeepsWaker]
+
 theorem inv_step (s : St) (e : Ev) (h : Inv slot s) : Inv slot (step slot s e) := by
   cases e with
   | poll t c consume => exact inv_poll slot s t c consume h
@@ -385,6 +393,8 @@ theorem inv_step (s : St) (e : Ev) (h : Inv slot s) : Inv slot (step slot s e) :
   | dropFut t => exact inv_dropFut slot s t h
   | dropHandle t c => exact inv_dropHandle slot s t c h
   | terminate => exact inv_terminate slot s h
+  | appSet c => show Inv slot (s.appSet c); rw [appSet_eq]; exact inv_drive slot s [c] [] h
+  | dropRejected c => show Inv slot (s.dropRejected c); rw [dropRejected_eq]; exact h
 
 theorem inv_run (evs : List Ev) : ∀ (s : St), Inv slot s → Inv slot (run slot s evs) := by
   induction evs with
@@ -455,6 +465,11 @@ theorem dead_step (s : St) (e : Ev) (h : s.dead = true) : (step slot s e).dead =
   | dropFut t => show (s.dropFut slot t).dead = true; rw [dropFut_dead]; exact h
   | dropHandle t c => exact h
   | terminate => rfl
+  | appSet c =>
+    show (s.appSet c).dead = true
+    rw [appSet_eq]; unfold St.drive
+    rw [(wakeConds_same [c] _).2.1]; exact h
+  | dropRejected c => show (s.dropRejected c).dead = true; rw [dropRejected_eq]; exact h
 
 theorem dead_run (evs : List Ev) : ∀ s : St, s.dead = true → (run slot s evs).dead = true := by
   induction evs with
@@ -578,5 +593,155 @@ theorem poll_pending_lem (s : St) (t : Task) (c : Cond) (consume : Bool)
 theorem wake_reaches_all (s : St) (c : Cond) (t : Task) (hr : (c, t) ∈ s.regs) :
     (s.wakeCond c).woken t = true := by
   simp [St.wakeCond, (reg_iff s c t).2 hr]
+
+/-! ### an application call that makes a condition hold (`SendStream::reset` → `stopped`) -/
+
+theorem appSet_lem (evs : List Ev) (t : Task) (c : Cond) (hw : (run slot init evs).waiting t = some c) :
+    (step slot (run slot init evs) (.appSet c)).holds c = true ∧
+    (step slot (run slot init evs) (.appSet c)).woken t = true ∧
+    (c, t) ∉ (step slot (run slot init evs) (.appSet c)).regs := by
+  have hi := inv_reach slot evs
+  generalize run slot init evs = s at hw hi ⊢
+  show (s.appSet c).holds c = true ∧ (s.appSet c).woken t = true ∧ (c, t) ∉ (s.appSet c).regs
+  rw [appSet_eq]
+  unfold St.drive
+  refine ⟨?_, ?_, ?_⟩
+  · rw [(wakeConds_same [c] _).1]; simp
+  · rcases hi.pendingCovered t c hw with h1 | h1
+    · exact wakeConds_woken_mono [c] _ t h1
+    · exact wakeConds_woken_of_reg [c] _ c t h1 (by simp)
+  · intro hm
+    have := ((wakeConds_regs [c] _ (c, t)).1 hm).2
+    simp at this
+
+/-! ### endpoint scope: loss of the endpoint driver -/
+
+/-- `lose` with a notified set that covers every registration = wake everybody, nothing stays registered -/
+theorem inv_lose (s : St) (ns : List Cond) (h : Inv slot s) (hcov : ∀ r ∈ s.regs, r.1 ∈ ns) :
+    Inv slot (s.lose ns) ∧ (s.lose ns).regs = [] := by
+  have hnil : (s.lose ns).regs = [] := by
+    show (s.wakeConds ns).regs = []
+    cases hr : (s.wakeConds ns).regs with
+    | nil => rfl
+    | cons r rs =>
+      have hm : r ∈ (s.wakeConds ns).regs := by rw [hr]; simp
+      have := (wakeConds_regs ns s r).1 hm
+      exact absurd (hcov r this.1) this.2
+  refine ⟨?_, hnil⟩
+  obtain ⟨_, _, w3⟩ := wakeConds_same ns s
+  constructor
+  · intro t c hw
+    have hw' : s.waiting t = some c := by
+      have : (s.lose ns).waiting = s.waiting := w3
+      rw [this] at hw; exact hw
+    left
+    show (s.wakeConds ns).woken t = true
+    rcases h.pendingCovered t c hw' with h1 | h1
+    · exact wakeConds_woken_mono ns s t h1
+    · exact wakeConds_woken_of_reg ns s c t h1 (hcov (c, t) h1)
+  · intro t c hr; rw [hnil] at hr; cases hr
+  · intro t c hr; rw [hnil] at hr; cases hr
+  · intro t c hl
+    have hl' : (s.wakeConds ns).left t c = true := hl
+    obtain ⟨h1, h2⟩ := (wakeConds_left ns s t c).1 hl'
+    obtain ⟨_, h4⟩ := h.leftReg t c h1
+    exact absurd (hcov (c, t) h4) h2
+
+theorem dropFut_regs_sub (s : St) (t : Task) (r : Cond × Task) (hr : r ∈ (s.dropFut slot t).regs) : r ∈ s.regs := by
+  unfold St.dropFut at hr
+  cases hw : s.waiting t with
+  | none => simpa [hw] using hr
+  | some c =>
+    simp only [hw] at hr
+    by_cases hs : slot c = true
+    · simpa [hs] using hr
+    · simp only [hs, Bool.false_eq_true, if_false, List.mem_filter] at hr
+      exact hr.1
+
+theorem poll_regs_sub (s : St) (t : Task) (c : Cond) (consume : Bool) (r : Cond × Task)
+    (hr : r ∈ (s.poll slot t c consume).1.regs) : r = (c, t) ∨ r ∈ s.regs := by
+  unfold St.poll at hr
+  have hsub : ∀ r, r ∈ (if s.waiting t = some c then s else s.dropFut slot t).regs → r ∈ s.regs := by
+    intro r hr
+    by_cases hw : s.waiting t = some c
+    · simpa [hw] using hr
+    · simp only [hw, if_false] at hr; exact dropFut_regs_sub slot s t r hr
+  generalize (if s.waiting t = some c then s else s.dropFut slot t) = s1 at hr hsub
+  by_cases hc : (s1.dead || s1.holds c) = true
+  · simp only [hc, if_true] at hr
+    right; exact hsub r hr
+  · simp only [hc, Bool.false_eq_true, if_false] at hr
+    rcases (mem_ins s1 c t r).1 hr with h1 | h1
+    · left; exact h1
+    · right; exact hsub r h1
+
+/-- every registration of the endpoint scope is on `incoming` or `idle` -/
+def EpRegs (s : St) : Prop := ∀ r ∈ s.regs, r.1 = EpCond.incoming.code ∨ r.1 = EpCond.idle.code
+
+theorem epDriverDropNotifies_eq : epDriverDropNotifies = [EpCond.incoming.code, EpCond.idle.code] := by
+  simp [epDriverDropNotifies, Gen.c18EndpointDriverDropNotifiesIncoming, Gen.c18EndpointDriverDropNotifiesIdle]
+
+theorem ep_cov (s : St) (h : EpRegs s) : ∀ r ∈ s.regs, r.1 ∈ epDriverDropNotifies := by
+  intro r hr
+  rw [epDriverDropNotifies_eq]
+  rcases h r hr with h1 | h1 <;> simp [h1]
+
+theorem ep_inv_step (s : St) (e : EpEv) (h : Inv noSlot s) (hr : EpRegs s) :
+    Inv noSlot (epStep s e) ∧ EpRegs (epStep s e) := by
+  cases e with
+  | poll t c consume =>
+    refine ⟨inv_poll noSlot s t c.code consume h, ?_⟩
+    intro r hm
+    rcases poll_regs_sub noSlot s t c.code consume r hm with h1 | h1
+    · subst h1; cases c <;> simp [EpCond.code]
+    · exact hr r h1
+  | drive up down =>
+    refine ⟨inv_drive noSlot s _ _ h, ?_⟩
+    intro r hm
+    have hm' : r ∈ (s.drive (up.map EpCond.code) (down.map EpCond.code)).regs := hm
+    unfold St.drive at hm'
+    exact hr r ((wakeConds_regs _ _ r).1 hm').1
+  | dropFut t =>
+    refine ⟨inv_dropFut noSlot s t h, ?_⟩
+    intro r hm
+    exact hr r (dropFut_regs_sub noSlot s t r hm)
+  | driverLost =>
+    obtain ⟨h1, h2⟩ := inv_lose noSlot s epDriverDropNotifies h (ep_cov s hr)
+    refine ⟨h1, ?_⟩
+    intro r hm
+    have hm' : r ∈ (s.lose epDriverDropNotifies).regs := hm
+    rw [h2] at hm'; cases hm'
+
+theorem ep_inv_run (evs : List EpEv) : ∀ s : St, Inv noSlot s → EpRegs s →
+    Inv noSlot (epRun s evs) ∧ EpRegs (epRun s evs) := by
+  induction evs with
+  | nil => intro s h hr; exact ⟨h, hr⟩
+  | cons e es ih => intro s h hr; obtain ⟨h1, h2⟩ := ep_inv_step s e h hr; exact ih _ h1 h2
+
+theorem ep_reach (evs : List EpEv) : Inv noSlot (epRun init evs) ∧ EpRegs (epRun init evs) :=
+  ep_inv_run evs init (inv_init noSlot) (by intro r hr; simp [init] at hr)
+
+theorem ep_no_lost_wakeup_lem (evs : List EpEv) (t : Task) (c : Cond)
+    (hw : (epRun init evs).waiting t = some c)
+    (hc : (epRun init evs).holds c = true ∨ (epRun init evs).dead = true) :
+    (epRun init evs).woken t = true :=
+  woken_of_pending_true noSlot _ (ep_reach evs).1 t c hw hc
+
+theorem ep_driver_lost_lem (evs : List EpEv) :
+    (epStep (epRun init evs) .driverLost).regs = [] ∧
+    (epStep (epRun init evs) .driverLost).dead = true ∧
+    ∀ t c, (epRun init evs).waiting t = some c → (epStep (epRun init evs) .driverLost).woken t = true := by
+  obtain ⟨hi, hr⟩ := ep_reach evs
+  obtain ⟨h1, h2⟩ := inv_lose noSlot _ epDriverDropNotifies hi (ep_cov _ hr)
+  refine ⟨h2, rfl, ?_⟩
+  intro t c hw
+  have hw' : (epStep (epRun init evs) .driverLost).waiting t = some c := by
+    show ((epRun init evs).lose epDriverDropNotifies).waiting t = some c
+    have : ((epRun init evs).lose epDriverDropNotifies).waiting = (epRun init evs).waiting :=
+      (wakeConds_same epDriverDropNotifies (epRun init evs)).2.2
+    rw [this]; exact hw
+  rcases h1.pendingCovered t c hw' with h3 | h3
+  · exact h3
+  · rw [h2] at h3; cases h3
 
 end QM.Wake
